@@ -1,3 +1,187 @@
+//! C17 (failed compile leaves the artifact directory untouched), C18 (after a successful compile
+//! the directory equals the artifacts), C19 (an interrupted write is repaired by the next
+//! successful compile).
+use serde_json::Value;
+use std::collections::BTreeMap;
+use std::sync::Mutex;
+use vcore::Report;
+
+mod c17;
+mod c18;
+mod c19;
+mod hgen;
+mod history;
+mod project;
+mod unit;
+mod world;
+
 fn main() {
-    vcore::inconclusive("fsops: not built yet");
+    let args = vcore::parse_args();
+    if !vcore::cli_path().is_file() {
+        vcore::inconclusive(&format!("the CLI binary {} is missing", vcore::cli_path().display()));
+    }
+    match args.property.as_str() {
+        "C17" => c17::run(&args),
+        "C18" => c18::run(&args),
+        "C19" => c19::run(&args),
+        "BENCH" => bench(),
+        other => vcore::inconclusive(&format!("fsops: unknown property {other}")),
+    }
+}
+
+/// Deterministic sample selection under parallel workers: per kind keep the `max` candidates with
+/// the smallest case hash, emit them at the end.
+pub struct Samples {
+    max: usize,
+    inner: Mutex<BTreeMap<String, BTreeMap<u64, Value>>>,
+}
+
+impl Samples {
+    pub fn new(max: usize) -> Samples {
+        Samples { max, inner: Mutex::new(BTreeMap::new()) }
+    }
+    pub fn offer(&self, kind: &str, hash: u64, v: impl FnOnce() -> Value) {
+        let mut g = self.inner.lock().unwrap();
+        let m = g.entry(kind.to_string()).or_default();
+        if m.len() < self.max || m.keys().next_back().is_some_and(|k| hash < *k) {
+            m.insert(hash, v());
+            while m.len() > self.max {
+                let last = *m.keys().next_back().unwrap();
+                m.remove(&last);
+            }
+        }
+    }
+    pub fn emit(&self, report: &Report) {
+        let g = self.inner.lock().unwrap();
+        for (kind, m) in g.iter() {
+            for v in m.values() {
+                let v = v.clone();
+                report.sample(kind, self.max, move || v);
+            }
+        }
+    }
+}
+
+/// A compact description of a history for the evidence file (sources of the last step only).
+pub fn history_sample(h: &history::History) -> Value {
+    serde_json::json!({
+        "init": h.init.label(),
+        "modes": h.steps.iter().map(|s| history::mode_name(s.mode)).collect::<Vec<_>>(),
+        "faults": h.steps.iter().map(|s| s.fault.map(|(k, t)| format!("op {k}{}", if t { " truncated" } else { "" }))).collect::<Vec<_>>(),
+        "artifact_dir": h.steps[0].project.artifact_dir,
+        "first_sources": h.steps[0].project.files,
+        "last_sources": h.steps.last().map(|s| s.project.files.clone()),
+    })
+}
+
+/// `vcore::run_prop_parallel` with a bounded shrink budget (a shrink step of a history costs
+/// several compiles, some of them CLI processes).
+pub fn run_prop_parallel_budget<S, F, M>(
+    report: &Report,
+    name: &str,
+    cases: u32,
+    shrink_iters: u32,
+    make: M,
+    f: F,
+) -> Option<(S::Value, vcore::Fail)>
+where
+    S: proptest::strategy::Strategy,
+    S::Value: Clone + Send,
+    M: Fn() -> S + Sync,
+    F: Fn(&S::Value) -> Result<(), vcore::Fail> + Sync,
+{
+    use proptest::test_runner::{TestCaseError, TestError, TestRunner};
+    let workers = vcore::num_workers().max(1);
+    let per = cases.div_ceil(workers as u32).max(1);
+    let mut results: Vec<Option<(S::Value, vcore::Fail)>> = Vec::new();
+    std::thread::scope(|scope| {
+        let handles: Vec<_> = (0..workers)
+            .map(|w| {
+                let make = &make;
+                let f = &f;
+                let seed = vcore::derive_seed(report.seed, name, w as u64);
+                scope.spawn(move || {
+                    let mut config = vcore::proptest_config(seed, per);
+                    config.max_shrink_iters = shrink_iters;
+                    let mut runner = TestRunner::new(config);
+                    let last_fail: Mutex<Option<vcore::Fail>> = Mutex::new(None);
+                    let result = runner.run(&make(), |v| match report.tolerate(f(&v)) {
+                        Ok(()) => Ok(()),
+                        Err(fail) => {
+                            report.freeze();
+                            let msg = fail.signature.clone();
+                            *last_fail.lock().unwrap() = Some(fail);
+                            Err(TestCaseError::fail(msg))
+                        }
+                    });
+                    match result {
+                        Ok(()) => None,
+                        Err(TestError::Fail(_, value)) => {
+                            let fail = match report.tolerate(f(&value)) {
+                                Err(fail) => fail,
+                                Ok(()) => last_fail.lock().unwrap().clone().unwrap_or_else(|| {
+                                    vcore::Fail::new("flaky", "failure did not reproduce on the shrunk value")
+                                }),
+                            };
+                            Some((value, fail))
+                        }
+                        Err(TestError::Abort(reason)) => {
+                            report.note_inconclusive(&format!("proptest aborted: {reason}"));
+                            None
+                        }
+                    }
+                })
+            })
+            .collect();
+        for h in handles {
+            results.push(h.join().unwrap_or_else(|_| vcore::inconclusive("a harness worker thread panicked outside a guarded region")));
+        }
+    });
+    results.into_iter().flatten().next()
+}
+
+
+/// Developer aid: per-compile cost of the three drivers.
+fn bench() {
+    use proptest::strategy::{Strategy, ValueTree};
+    let base = vcore::scratch_base();
+    let mut runner = proptest::test_runner::TestRunner::new(vcore::proptest_config(1, 1));
+    let mut built = None;
+    for _ in 0..50 {
+        let seed = hgen::c18_hist_seed().new_tree(&mut runner).unwrap().current();
+        let b = hgen::build_history(&seed);
+        if b.history.steps.len() >= 3 && b.projects[0].client_field_count() >= 3 {
+            built = Some(b);
+            break;
+        }
+    }
+    let b = built.expect("a history");
+    let t = std::time::Instant::now();
+    let mut w = world::World::create(&base, &b.history.steps[0].project);
+    println!("create world: {:?}", t.elapsed());
+    for mode in [world::Mode::FreshState, world::Mode::SameSession, world::Mode::FreshCli] {
+        let t = std::time::Instant::now();
+        for _ in 0..20 {
+            let (_, o) = w.compile(mode, &[], None);
+            assert!(o.is_ok(), "{o:?}");
+        }
+        println!("{mode:?}: {:?} per compile", t.elapsed() / 20);
+    }
+    let t = std::time::Instant::now();
+    for _ in 0..20 {
+        let _ = w.snapshot();
+    }
+    println!("snapshot: {:?} ({} files)", t.elapsed() / 20, w.snapshot().files.len());
+    let t = std::time::Instant::now();
+    for _ in 0..20 {
+        let _ = w.fresh_artifacts();
+    }
+    println!("fresh_artifacts: {:?}", t.elapsed() / 20);
+    let t = std::time::Instant::now();
+    for _ in 0..20 {
+        let _ = w.live_artifacts();
+    }
+    println!("live_artifacts: {:?}", t.elapsed() / 20);
+    drop(w);
+    vcore::remove_scratch();
 }
